@@ -12,7 +12,7 @@ SIM = os.path.join(VERIF, "sim")
 NPROC = os.cpu_count() or 8
 
 SEAM_DEFS = "-DCUSTOM_SUPPORT -DOVERRIDE_celt_fatal -I%s/seams" % SIM
-WRAP = "-Wl,--wrap=rand -Wl,--wrap=opus_select_arch"
+WRAP = "-Wl,--wrap=rand -Wl,--wrap=opus_select_arch -Wl,--wrap=abort"
 
 # name -> description of how libopus and the simulator are compiled
 VARIANTS = {
